@@ -1900,7 +1900,9 @@ def pretty_str(s, ctx, split_pattern=None):
         if len(lines) <= 1:
             # Nothing to split (the string may even be empty, in which case
             # there are no pieces at all): print the single literal.
-            return flat_version
+            if is_native_type:
+                return flat_version
+            return build_fncall(ctx, constructor, argdocs=[flat_version])
 
         parts = intersperse(
             HARDLINE,
